@@ -26,25 +26,27 @@ Definition C15_statement : Prop := forall p, ~ silently_dropped p.
 (* D7: { RdV = 1, ReV = 2; } — both register writes are declared, the instruction sequence is EMPTY() *)
 Definition w_comma : cstmts :=
   SCons (SExpr (EComma (EAssign AAssign (EOp (OReg "R" "d")) (EOp (ONum 1 false ""))) (EAssign AAssign (EOp (OReg "R" "e")) (EOp (ONum 2 false ""))))) SNil.
-Theorem C15_refuted_comma : silently_dropped w_comma /\ (match tlower (cfg_insn 0) w_comma with OK (e, _) => leaves e = 0%nat | Err _ => False end).
-Proof. split; vm_compute; reflexivity. Qed.
+Definition rejected (p : cstmts) : Prop := match tlower (cfg_insn 0) p with Err _ => True | OK _ => False end.
+(* FIXED in /repo (fix: raise for comma expressions, labels, goto, break and continue): formerly dropped, now rejected;
+   the ORIGINAL behaviour (switch off) is kept as a refutation of the old tree for the record *)
+Definition cfg_before_fix : config := with_fx (mkfx false true false true true false false false false) (cfg_insn 0).
+Example C15_was_dropped_comma : match tlower_info cfg_before_fix w_comma with OK i => ti_dropped i = true /\ leaves (ti_eff i) = 0%nat | Err _ => False end.
+Proof. vm_compute. auto. Qed.
+Example C15_fixed_comma : rejected w_comma.
+Proof. vm_compute. exact I. Qed.
 (* { RdV = 1; goto foo; } — the goto vanishes *)
 Definition w_goto : cstmts :=
   SCons (SExpr (EAssign AAssign (EOp (OReg "R" "d")) (EOp (ONum 1 false "")))) (SCons (SGoto "foo") SNil).
-Theorem C15_refuted_goto : silently_dropped w_goto.
-Proof. vm_compute. reflexivity. Qed.
+Example C15_fixed_goto : rejected w_goto.
+Proof. vm_compute. exact I. Qed.
 (* { RdV = RsV + 1; lbl: ReV = 2; } — the labelled statement (a register write) vanishes *)
 Definition w_label : cstmts :=
   SCons (SExpr (EAssign AAssign (EOp (OReg "R" "d")) (EBin BAdd (EOp (OReg "R" "s")) (EOp (ONum 1 false "")))))
  (SCons (SLabel "lbl" (SExpr (EAssign AAssign (EOp (OReg "R" "e")) (EOp (ONum 2 false ""))))) SNil).
-Theorem C15_refuted_label : silently_dropped w_label /\ (match tlower (cfg_insn 0) w_label with OK (e, _) => leaves e = 1%nat | Err _ => False end).
-Proof. split; vm_compute; reflexivity. Qed.
-Theorem C15_refuted : ~ C15_statement.
-Proof. intro H. exact (H w_goto C15_refuted_goto). Qed.
-Print Assumptions C15_refuted.
+Example C15_fixed_label : rejected w_label.
+Proof. vm_compute. exact I. Qed.
 
 (* constructs the model (and, by K2, the implementation) rejects *)
-Definition rejected (p : cstmts) : Prop := match tlower (cfg_insn 0) p with Err _ => True | OK _ => False end.
 Example C15_rejects_while_do_switch :
   rejected (SCons (SWhile (EOp (OReg "R" "s")) (SExpr (EAssign AAssign (EOp (OReg "R" "d")) (EOp (ONum 1 false ""))))) SNil)
   /\ rejected (SCons (SDo (SExpr (EAssign AAssign (EOp (OReg "R" "d")) (EOp (ONum 1 false "")))) (EOp (OReg "R" "s"))) SNil)
